@@ -879,7 +879,8 @@ class Context:
 
         def fromCharCode_fn(*args):
             """String.fromCharCode - create string from char codes."""
-            return "".join(chr(to_integer(arg)) for arg in args)
+            # ToUint16 of each argument
+            return "".join(chr(to_integer(arg) & 0xFFFF) for arg in args)
 
         string_constructor.set("fromCharCode", fromCharCode_fn)
 
